@@ -283,6 +283,12 @@ def run(ctx):
     n = ctx.budget(60_000, 1_500_000)
     done = 0
     while done < n and ctx.alive():
+        if rng.random() < 0.005:
+            from ..gen_stepper import failed_call
+            from plotink import plot_utils as _pu
+            failed_call(rng, rng.choice((_pu.checkLimits, _pu.checkLimitsTol, _pu.constrainLimits, _pu.point_in_bounds)),
+                        rng.choice((3, 4)))
+            ctx.tag("history: after a failed call (malformed arguments)")
         kind = rng.choice(("int", "dyadic", "dyadic", "float"))
         scale = rng.choice((4, 100, 10 ** 4, 10 ** 9))
         lo = gen_number(rng, kind, scale)
